@@ -134,7 +134,12 @@ class Program:
         self.steps, self.ordered, self.final_cols, self.meta = steps, ordered, final_cols, meta or {}
 
     def prql(self, header=None):
-        lines = (["prql target:%s" % header] if header else []) + ["from t"] + [s.prql for s in self.steps]
+        k = self.meta.get("let_at")
+        if k:
+            body = ["from t"] + [s.prql for s in self.steps[:k]]
+            lines = (["prql target:%s" % header] if header else []) + ["let p0 = (", *body, ")", "from p0"] + [s.prql for s in self.steps[k:]]
+        else:
+            lines = (["prql target:%s" % header] if header else []) + ["from t"] + [s.prql for s in self.steps]
         txt = "\n".join(lines)
         rn = self.meta.get("rename")
         if rn:
@@ -155,11 +160,12 @@ class Gen:
     current relation (or None): positional transforms (take, lag, row_number…) are only generated
     while the order in effect ends in a unique key, so that the documented meaning is deterministic."""
 
-    def __init__(self, rng, weights=None, max_steps=6, expr_depth=2, ops=None):
+    def __init__(self, rng, weights=None, max_steps=6, expr_depth=2, ops=None, lets=0.0):
         self.r = rng
+        self.lets = lets
         self.fresh = 0
         self.w = {"join": 1.2, "derive": 2, "select": 1.5, "filter": 2.2, "sort": 2, "take": 1.5, "aggregate": 0.7, "group_agg": 0.9,
-                  "group_take": 0.8, "group_win": 0.8, "win": 1.0, "distinct": 0.5, "append": 0.25}
+                  "group_take": 0.8, "group_win": 0.8, "win": 1.0, "distinct": 0.5, "append": 0.25, "alljoin": 0.0}
         if weights:
             self.w.update(weights)
         self.max_steps = max_steps
@@ -253,44 +259,92 @@ class Gen:
         if st["order"] is not None and final_select:
             names = [c for _, c in st["cols"]]
             kp = []
+            shared = set(TABLES["t"]) & set(TABLES["u"])
             for d, e in st["order"]:
-                if e[0] == "col" and e[2] in names and (e[1] in (None, "t")):
+                # after a join a bare name shared by both tables may denote the other side's column: not usable as a key
+                if e[0] == "col" and e[2] in names and (e[1] in (None, "t")) and not (st["joined"] and e[2] in shared) and names.count(e[2]) == 1:
                     kp.append((names.index(e[2]), d))
                 else:
                     kp = None
                     break
             key_pos = kp
-        return Program(st["steps"], ordered, [c for _, c in st["cols"]], {"order": st["order"], "key_pos": key_pos})
+        meta = {"order": st["order"], "key_pos": key_pos, "outer_right": bool(st.get("outer_right"))}
+        kinds = [x.kind for x in st["steps"]]
+        if self.lets and "join" not in kinds and len(st["steps"]) >= 2 and r.random() < self.lets and not any(k in kinds for k in ("knownjoin", "joinpick", "append")):
+            meta["let_at"] = r.randint(1, len(st["steps"]) - 1)       # name a pipeline prefix with `let` and continue from the name
+        return Program(st["steps"], ordered, [c for _, c in st["cols"]], meta)
 
     # each t_* returns a Step or None (not applicable in the current state)
     def t_join(self, st):
         r = self.r
         if st["joined"] or st["cols"] != [(None, c) for c in TABLES["t"]] or any(x.kind not in ("sort", "filter", "take") for x in st["steps"]):
             return None
-        side = r.choice(["Inner", "LeftJ"])
-        on = ("bin", "Eq", ("col", "t", "g"), ("col", "u", "g"))
-        if r.random() < 0.4:
-            on = ("bin", "And", on, ("bin", r.choice(["Lt", "Ge"]), ("col", "t", "a"), ("col", "u", "d")))
+        side = r.choices(["Inner", "LeftJ", "RightJ", "FullJ"], weights=[4, 4, 1.5, 1.5])[0]
+        one_to_one = r.random() < 0.4
+        if one_to_one:
+            on = ("bin", "Eq", ("col", "t", "id"), ("col", "u", "id"))     # ids are unique on both sides: at most one match
+        else:
+            on = ("bin", "Eq", ("col", "t", "g"), ("col", "u", "g"))
+            if r.random() < 0.4:
+                on = ("bin", "And", on, ("bin", r.choice(["Lt", "Ge"]), ("col", "t", "a"), ("col", "u", "d")))
+        lcols = list(st["cols"])
         st["cols"] = [("t", c) for c in TABLES["t"]] + [("u", c) for c in TABLES["u"]]
         st["joined"] = True
-        st["uniq"] = None
+        outer_right = side in ("RightJ", "FullJ")
+
+        def requal(e):
+            if e[0] == "col":
+                return ("col", "t", e[2])
+            if e[0] == "bin":
+                return ("bin", e[1], requal(e[2]), requal(e[3]))
+            if e[0] in ("neg", "not"):
+                return (e[0], requal(e[1]))
+            if e[0] == "isnull":
+                return ("isnull", requal(e[1]), e[2])
+            if e[0] == "case":
+                return ("case", [(requal(c), requal(v)) for c, v in e[1]])
+            return e
         # the left input's order is retained by join; its keys are now qualified
         if st["order"] is not None:
-            def requal(e):
-                if e[0] == "col":
-                    return ("col", "t", e[2])
-                if e[0] == "bin":
-                    return ("bin", e[1], requal(e[2]), requal(e[3]))
-                if e[0] in ("neg", "not"):
-                    return (e[0], requal(e[1]))
-                if e[0] == "isnull":
-                    return ("isnull", requal(e[1]), e[2])
-                if e[0] == "case":
-                    return ("case", [(requal(c), requal(v)) for c, v in e[1]])
-                return e
             st["order"] = [(d, requal(e)) for d, e in st["order"]]
-        return Step("join", "join %su (%s)" % ("side:left " if side == "LeftJ" else "", prql_expr(on)),
-                    "TJoin %s %d%%N U_COLS U_TABLE %s" % (side, nid("u"), coq_expr(on)), side=side)
+        if one_to_one and not outer_right and st["uniq"] is not None:
+            st["uniq"] = requal(st["uniq"])           # still a unique key: positional transforms stay deterministic
+        else:
+            st["uniq"] = None
+        if outer_right:
+            st["outer_right"] = True                   # rows without a left partner have NULL left keys: their position is unspecified
+        sidetxt = {"Inner": "", "LeftJ": "side:left ", "RightJ": "side:right ", "FullJ": "side:full "}[side]
+        if outer_right:
+            lc = "[" + "; ".join("(Some %d%%N, Some %d%%N)" % (nid("t"), nid(c)) for _, c in lcols) + "]"
+            coq = "TJoinX %s %d%%N L_COLS U_COLS U_TABLE %s" % (side, nid("u"), coq_expr(on))
+        else:
+            coq = "TJoin %s %d%%N U_COLS U_TABLE %s" % (side, nid("u"), coq_expr(on))
+        return Step("join", "join %su (%s)" % (sidetxt, prql_expr(on)), coq, side=side, one_to_one=one_to_one)
+
+    def t_alljoin(self, st):
+        """join on ALL columns of both (narrowed) sides, keeping only the left columns: the shape the back end may
+        rewrite into a set operation"""
+        r = self.r
+        if st["joined"] or st["cols"] != [(None, c) for c in TABLES["t"]] or any(x.kind not in ("sort", "filter", "take") for x in st["steps"]):
+            return None
+        side = r.choice(["Inner", "LeftJ", "Inner", "LeftJ", "RightJ", "FullJ"])
+        others = [c for c in TABLES["t"] if c not in ("a", "b")] + ["zz"]
+        st["steps"].append(Step("select", "select {a, b}", "TExclude [%s]" % "; ".join("(None, %d%%N)" % nid(c) for c in others)))
+        if r.random() < 0.4:
+            st["steps"].append(Step("distinct", "group {a, b} (take 1)", "TDistinct"))
+        on = ("bin", "And", ("bin", "Eq", ("col", "t", "a"), ("col", "u", "a")), ("bin", "Eq", ("col", "t", "b"), ("col", "u", "d")))
+        usel = "(Rel.apply (TSelect [(None, ECol None %d%%N); (None, ECol None %d%%N)]) U_TABLE)" % (nid("a"), nid("d"))
+        sidetxt = {"Inner": "", "LeftJ": "side:left ", "RightJ": "side:right ", "FullJ": "side:full "}[side]
+        if side in ("RightJ", "FullJ"):
+            coq = "TJoinX %s %d%%N [(Some %d%%N, Some %d%%N); (Some %d%%N, Some %d%%N)] %s %s %s" % (side, nid("u"), nid("t"), nid("a"), nid("t"), nid("b"), coq_names(["a", "d"]), usel, coq_expr(on))
+        else:
+            coq = "TJoin %s %d%%N %s %s %s" % (side, nid("u"), coq_names(["a", "d"]), usel, coq_expr(on))
+        st["steps"].append(Step("join", "join %su=(from u | select {a, d}) (%s)" % (sidetxt, prql_expr(on)), coq, side=side, alljoin=True))
+        st["joined"] = True
+        st["cols"] = [(None, "a"), (None, "b")]
+        st["uniq"] = None
+        st["order"] = None
+        return Step("select", "select {t.a, t.b}", "TSelect [(None, ECol (Some %d%%N) %d%%N); (None, ECol (Some %d%%N) %d%%N)]" % (nid("t"), nid("a"), nid("t"), nid("b")))
 
     def t_derive(self, st):
         nm = self.newname()
@@ -322,7 +376,12 @@ class Gen:
                 continue
             seen.add(nc[1])
             f_items.append(it); f_c.append(ci); f_cols.append(nc)
+        had_qualifiers = any(c[0] is not None for c in cols)
         st["cols"] = f_cols
+        if had_qualifiers:
+            # names lose their table qualifier here: the tracked key expressions (t.id ...) can no longer be written
+            st["uniq"] = None
+            st["order"] = None
         # the sort stays in effect even when its key columns are dropped; later positional transforms
         # need the key expression to be evaluable by the reference semantics, so forget uniq if dropped
         if st["order"] is not None:
@@ -394,9 +453,12 @@ class Gen:
         st["uniq"] = None
         return Step("aggregate", "aggregate {%s}" % ", ".join(items), "TAggregate [%s]" % "; ".join(ci))
 
+    def _qualified(self, st):
+        return st["joined"] and any(c[0] is not None for c in st["cols"])
+
     def t_group_agg(self, st):
         r = self.r
-        if st["joined"]:
+        if self._qualified(st):
             return None
         cols = [c for c in st["cols"] if not c[1].startswith("?")]
         if not cols or len(cols) != len(st["cols"]):
@@ -419,7 +481,7 @@ class Gen:
 
     def t_group_take(self, st):
         r = self.r
-        if st["uniq"] is None or st["joined"] or (None, "id") not in st["cols"] or st.get("uniq_dropped"):
+        if st["uniq"] is None or self._qualified(st) or (None, "id") not in st["cols"] or st.get("uniq_dropped"):
             return None
         by = self._group_by(st)
         if by is None or "id" in by:
